@@ -456,4 +456,425 @@ theorem lookup_updateExisting (s o : Dict) (k : String) :
       cases ho : lookup o k' <;> simp [lookup, ho]
     · cases ho : lookup o k' <;> simp [lookup, ho, hk, ih]
 
+/-! ### generate ≡ args: typed option groups -/
+
+/-- an option of the table with its value tokens -/
+structure TGroup where
+  opt : Opt
+  vals : List String
+
+def TGroup.tok (g : TGroup) : String := "--" ++ g.opt.name
+def TGroup.render (g : TGroup) : List String := g.tok :: g.vals
+
+/-- the option token `--name` is read as this option by `generate` and by argparse
+(a closed fact about each table entry; `decide` over the regenerated tables) -/
+def tokOk (T : List Opt) (o : Opt) : Bool :=
+  let tok := "--" ++ o.name
+  isOptionTok tok && optionLike tok && tok.startsWith "--" && decide ((tok.drop 2).toString = o.name)
+    && decide (stripDashes tok = o.name) && decide (T.find? (fun p => p.name = o.name) = some o)
+
+/-- the modelled value token classes, per option type:
+* never option-like for either reader (does not start with `-`, or is a negative number `-d+`, `-d*.d+`);
+* int option: an integer token `[+-]?d+`;
+* float option: a number token of the decimal grammar whose binary64 value exists; an integer token must be
+  exactly representable (else `generate` keeps the exact integer and argparse rounds it);
+* string option: not a number token (a numeric-looking string would become a number in the config), and one
+  of the choices if the option has choices. -/
+def valOk (o : Opt) (v : String) : Bool :=
+  !isOptionTok v && !optionLike v &&
+  (o.choices.isEmpty || (decide (o.kind = .str) && o.choices.contains v)) &&
+  match o.kind with
+  | .flag => false
+  | .int => isNumber v && (parseInt v).isSome
+  | .float => isNumber v &&
+      (match parseInt v, toFloat v with
+       | some i, .ok x => decide (x = (i : Rat))
+       | none, .ok _ => true
+       | _, _ => false)
+  | .str => !isNumber v
+
+def arityOk (o : Opt) (vals : List String) : Bool :=
+  match o.kind, o.nargs with
+  | .flag, _ => vals.isEmpty
+  | _, none => decide (vals.length = 1)
+  | _, some n => decide (2 ≤ n) && decide (vals.length = n)
+
+/-- **well-formed group**: option of the table, arity respected, values in the modelled classes -/
+def wfGroup (T : List Opt) (g : TGroup) : Bool :=
+  tokOk T g.opt && arityOk g.opt g.vals && g.vals.all (valOk g.opt)
+
+/-- no two members of a mutually exclusive group are given (argparse's own check) -/
+def exclFree (excl : List (List String)) (toks : List String) : Bool :=
+  !(excl.any (fun g => decide ((g.filter (fun n =>
+      ((toks.filter (fun t => t.startsWith "--")).map (fun t => (t.drop 2).toString)).contains n)).length ≥ 2)))
+
+def genAtom (v : String) : Atom := match convGen v with | .ok a => a | .error _ => .null
+def argAtom (k : OptKind) (v : String) : Atom := (convArg k v).getD .null
+
+/-- what `generate` stores for a group / what argparse stores -/
+def genValue (g : TGroup) : JVal :=
+  if g.vals.isEmpty then .atom (.bool true) else scalarOrList (g.vals.map genAtom)
+def argValue (g : TGroup) : JVal :=
+  match g.opt.kind, g.opt.nargs with
+  | .flag, _ => .atom (.bool true)
+  | k, none => .atom (argAtom k (g.vals.headD ""))
+  | k, some _ => .list (g.vals.map (argAtom k))
+
+theorem atomApprox_refl (a : Atom) : atomApprox a a = true := by
+  cases a <;> simp [atomApprox]
+
+/-- per-type value agreement (`generate_value_int/float` + argparse's `type=`) -/
+theorem value_agreement (o : Opt) (v : String) (h : valOk o v = true) :
+    convGen v = .ok (genAtom v) ∧ convArg o.kind v = some (argAtom o.kind v) ∧
+    atomApprox (genAtom v) (argAtom o.kind v) = true := by
+  unfold valOk at h
+  simp only [Bool.and_eq_true] at h
+  obtain ⟨_, hk⟩ := h
+  cases hkind : o.kind with
+  | flag => simp [hkind] at hk
+  | int =>
+    simp only [hkind, Bool.and_eq_true] at hk
+    obtain ⟨hn, hi⟩ := hk
+    obtain ⟨i, hi⟩ := Option.isSome_iff_exists.mp hi
+    simp [genAtom, argAtom, convGen, convArg, hn, hi, pure, Except.pure, atomApprox]
+  | float =>
+    simp only [hkind, Bool.and_eq_true] at hk
+    obtain ⟨hn, hv⟩ := hk
+    cases hi : parseInt v with
+    | none =>
+      cases hx : toFloat v with
+      | error e => simp [hi, hx] at hv
+      | ok x => simp [genAtom, argAtom, convGen, convArg, hn, hi, hx, pure, Except.pure, bind, Except.bind, atomApprox]
+    | some i =>
+      cases hx : toFloat v with
+      | error e => simp [hi, hx] at hv
+      | ok x =>
+        have hxi : x = (i : Rat) := by simpa [hi, hx] using hv
+        simp [genAtom, argAtom, convGen, convArg, hn, hi, hx, pure, Except.pure, atomApprox, hxi]
+  | str =>
+    simp only [hkind] at hk
+    have hn : isNumber v = false := by simpa using hk
+    simp [genAtom, argAtom, convGen, convArg, hn, pure, Except.pure, atomApprox]
+
+theorem mapM_convGen (o : Opt) (vals : List String) (h : ∀ v ∈ vals, valOk o v = true) :
+    vals.mapM convGen = .ok (vals.map genAtom) := by
+  induction vals with
+  | nil => rfl
+  | cons v vs ih =>
+    have h1 := (value_agreement o v (h v (by simp))).1
+    have h2 := ih (fun w hw => h w (by simp [hw]))
+    simp [List.mapM_cons, h1, h2, bind, Except.bind, pure, Except.pure]
+
+theorem mapM_convArg (o : Opt) (vals : List String) (h : ∀ v ∈ vals, valOk o v = true) :
+    vals.mapM (convArg o.kind) = some (vals.map (argAtom o.kind)) := by
+  induction vals with
+  | nil => rfl
+  | cons v vs ih =>
+    have h1 := (value_agreement o v (h v (by simp))).2.1
+    have h2 := ih (fun w hw => h w (by simp [hw]))
+    simp [List.mapM_cons, h1, h2]
+
+theorem zip_all_approx (o : Opt) (vals : List String) (h : ∀ v ∈ vals, valOk o v = true) :
+    ((vals.map genAtom).zip (vals.map (argAtom o.kind))).all (fun p => atomApprox p.1 p.2) = true := by
+  induction vals with
+  | nil => rfl
+  | cons v vs ih =>
+    have h1 := (value_agreement o v (h v (by simp))).2.2
+    have h2 := ih (fun w hw => h w (by simp [hw]))
+    simp only [List.map_cons, List.zip_cons_cons, List.all_cons, h1, h2, Bool.and_self]
+
+theorem wfGroup_parts {T : List Opt} {g : TGroup} (h : wfGroup T g = true) :
+    tokOk T g.opt = true ∧ arityOk g.opt g.vals = true ∧ ∀ v ∈ g.vals, valOk g.opt v = true := by
+  unfold wfGroup at h
+  simp only [Bool.and_eq_true, List.all_eq_true] at h
+  exact ⟨h.1.1, h.1.2, h.2⟩
+
+theorem tokOk_parts {T : List Opt} {o : Opt} (h : tokOk T o = true) :
+    isOptionTok ("--" ++ o.name) = true ∧ optionLike ("--" ++ o.name) = true ∧
+    ("--" ++ o.name).startsWith "--" = true ∧ (("--" ++ o.name).drop 2).toString = o.name ∧
+    stripDashes ("--" ++ o.name) = o.name ∧ T.find? (fun p => p.name = o.name) = some o := by
+  unfold tokOk at h
+  simp only [Bool.and_eq_true, decide_eq_true_eq] at h
+  exact ⟨h.1.1.1.1.1, h.1.1.1.1.2, h.1.1.1.2, h.1.1.2, h.1.2, h.2⟩
+
+theorem valOk_not_option {o : Opt} {v : String} (h : valOk o v = true) :
+    isOptionTok v = false ∧ optionLike v = false := by
+  unfold valOk at h
+  simp only [Bool.and_eq_true, Bool.not_eq_true'] at h
+  exact ⟨h.1.1.1, h.1.1.2⟩
+
+theorem valOk_choices {o : Opt} {v : String} (h : valOk o v = true) :
+    (o.choices.isEmpty || o.choices.contains v) = true := by
+  unfold valOk at h
+  simp only [Bool.and_eq_true, Bool.or_eq_true] at h
+  rcases h.1.2 with h' | h'
+  · simp [h']
+  · have := h'.2
+    simp only [List.contains_eq_mem, decide_eq_true_eq] at this
+    simp [this]
+
+theorem takeWhile_app (p : String → Bool) (vals rest : List String) (hv : ∀ v ∈ vals, p v = true)
+    (hr : rest = [] ∨ ∃ a r, rest = a :: r ∧ p a = false) : (vals ++ rest).takeWhile p = vals := by
+  induction vals with
+  | nil =>
+    rcases hr with h | ⟨a, r, h, ha⟩
+    · simp [h]
+    · simp [h, List.takeWhile, ha]
+  | cons v vs ih =>
+    have := hv v (by simp)
+    simp [List.takeWhile, this, ih (fun w hw => hv w (by simp [hw]))]
+
+theorem dropWhile_app (p : String → Bool) (vals rest : List String) (hv : ∀ v ∈ vals, p v = true)
+    (hr : rest = [] ∨ ∃ a r, rest = a :: r ∧ p a = false) : (vals ++ rest).dropWhile p = rest := by
+  induction vals with
+  | nil =>
+    rcases hr with h | ⟨a, r, h, ha⟩
+    · simp [h]
+    · simp [h, List.dropWhile, ha]
+  | cons v vs ih =>
+    have := hv v (by simp)
+    simp [List.dropWhile, this, ih (fun w hw => hv w (by simp [hw]))]
+
+theorem render_head (T : List Opt) (gs : List TGroup) (hwf : ∀ g ∈ gs, wfGroup T g = true) (p : String → Bool)
+    (hp : ∀ g ∈ gs, p g.tok = false) :
+    gs.flatMap TGroup.render = [] ∨ ∃ a r, gs.flatMap TGroup.render = a :: r ∧ p a = false := by
+  cases gs with
+  | nil => left; rfl
+  | cons g gs =>
+    right
+    exact ⟨g.tok, g.vals ++ gs.flatMap TGroup.render, by simp [TGroup.render], hp g (by simp)⟩
+
+/-- the values agree group by group -/
+theorem group_value_approx {T : List Opt} {g : TGroup} (h : wfGroup T g = true) :
+    valApprox (genValue g) (argValue g) = true := by
+  obtain ⟨_, har, hv⟩ := wfGroup_parts h
+  unfold arityOk at har
+  unfold genValue argValue
+  cases hk : g.opt.kind with
+  | flag =>
+    simp only [hk] at har
+    simp [har, valApprox, atomApprox]
+  | int | float | str =>
+    all_goals
+      simp only [hk] at har
+      cases hn : g.opt.nargs with
+      | none =>
+        simp only [hn, decide_eq_true_eq] at har
+        match hvals : g.vals, har with
+        | [v], _ =>
+          have := (value_agreement g.opt v (hv v (by simp [hvals]))).2.2
+          rw [hk] at this
+          simp [scalarOrList, valApprox, this]
+      | some n =>
+        simp only [hn, Bool.and_eq_true, decide_eq_true_eq] at har
+        have hne : g.vals.isEmpty = false := by
+          cases hvals : g.vals with
+          | nil => rw [hvals] at har; simp at har; omega
+          | cons a as => rfl
+        have hz := zip_all_approx g.opt g.vals hv
+        rw [hk] at hz
+        have hl : scalarOrList (g.vals.map genAtom) = .list (g.vals.map genAtom) := by
+          match hvals : g.vals with
+          | [] => rw [hvals] at har; simp at har; omega
+          | [a] => rw [hvals] at har; simp at har; omega
+          | a :: b :: r => simp [scalarOrList]
+        simp [hne, hl, valApprox, hz]
+
+/-- the dictionary after storing one entry per group, with the given value function -/
+def foldGroups (val : TGroup → JVal) : List TGroup → Dict → Dict
+  | [], d => d
+  | g :: gs, d => foldGroups val gs (setKey d g.opt.name (val g))
+
+/-- **group decomposition of argparse**: one well-formed group is consumed in one step -/
+theorem argparseGo_group (T : List Opt) (g : TGroup) (gs : List TGroup) (hg : wfGroup T g = true)
+    (hgs : ∀ g' ∈ gs, wfGroup T g' = true) (fuel : Nat) (d : Dict) :
+    argparseGo T (fuel + 1) (g.render ++ gs.flatMap TGroup.render) d
+      = argparseGo T fuel (gs.flatMap TGroup.render) (setKey d g.opt.name (argValue g)) := by
+  obtain ⟨htok, har, hv⟩ := wfGroup_parts hg
+  obtain ⟨_, _, hsw, hdrop, _, hfind⟩ := tokOk_parts htok
+  have hrest := render_head T gs hgs (fun t => !optionLike t)
+    (fun g' hg' => by
+      have := (tokOk_parts (wfGroup_parts (hgs g' hg')).1).2.1
+      simp [TGroup.tok, this])
+  have hvp : ∀ v ∈ g.vals, (fun t => !optionLike t) v = true := fun v hv' => by simp [(valOk_not_option (hv v hv')).2]
+  have htw := takeWhile_app _ g.vals _ hvp hrest
+  have hdw := dropWhile_app _ g.vals _ hvp hrest
+  simp only [TGroup.render, TGroup.tok, List.cons_append, argparseGo, hsw, Bool.not_true, Bool.false_eq_true,
+    if_false, hdrop, hfind, htw, hdw]
+  unfold arityOk at har
+  unfold argValue
+  cases hk : g.opt.kind with
+  | flag =>
+    simp only [hk] at har
+    simp [har]
+  | int | float | str =>
+    all_goals
+      simp only [hk] at har
+      cases hn : g.opt.nargs with
+      | none =>
+        simp only [hn, decide_eq_true_eq] at har
+        match hvals : g.vals, har with
+        | [v], _ =>
+          have hv1 := hv v (by simp [hvals])
+          have hc := valOk_choices hv1
+          have ha := (value_agreement g.opt v hv1).2.1
+          rw [hk] at ha
+          have hc' : g.opt.choices = [] ∨ v ∈ g.opt.choices := by simpa using hc
+          simp [ha]
+          intro h1 h2
+          rcases hc' with h | h
+          · exact absurd h h1
+          · exact absurd h h2
+      | some n =>
+        simp only [hn, Bool.and_eq_true, decide_eq_true_eq] at har
+        have hm := mapM_convArg g.opt g.vals hv
+        rw [hk] at hm
+        simp [har.2, hm]
+
+theorem argparseGo_groups (T : List Opt) (gs : List TGroup) (hgs : ∀ g ∈ gs, wfGroup T g = true) :
+    ∀ (fuel : Nat) (d : Dict), gs.length ≤ fuel →
+      argparseGo T fuel (gs.flatMap TGroup.render) d = some (foldGroups argValue gs d) := by
+  induction gs with
+  | nil => intro fuel d _; cases fuel <;> simp [argparseGo, foldGroups]
+  | cons g gs ih =>
+    intro fuel d hf
+    cases fuel with
+    | zero => simp at hf
+    | succ fuel =>
+      rw [List.flatMap_cons, argparseGo_group T g gs (hgs g (by simp)) (fun g' hg' => hgs g' (by simp [hg'])) fuel d]
+      exact ih (fun g' hg' => hgs g' (by simp [hg'])) fuel _ (by simpa using hf)
+
+theorem flatMap_render_length (gs : List TGroup) : gs.length ≤ (gs.flatMap TGroup.render).length := by
+  induction gs with
+  | nil => simp
+  | cons g gs ih =>
+    rw [List.flatMap_cons, List.length_append]
+    simp only [TGroup.render, List.length_cons]
+    omega
+
+/-- **argparse half**: a well-formed list is accepted and stores one entry per group -/
+theorem argparseLong_groups (T : List Opt) (excl : List (List String)) (gs : List TGroup)
+    (hgs : ∀ g ∈ gs, wfGroup T g = true) (hex : exclFree excl (gs.flatMap TGroup.render) = true) (d : Dict) :
+    argparseLong T (gs.flatMap TGroup.render) d excl = some (foldGroups argValue gs d) := by
+  unfold argparseLong
+  unfold exclFree at hex
+  simp only [Bool.not_eq_true'] at hex
+  simp only [hex, Bool.false_eq_true, if_false]
+  exact argparseGo_groups T gs hgs _ d (flatMap_render_length gs)
+
+theorem genSkipVals (isOpt : String → Bool) (conv : String → Except Err Atom) (vals rest : List String) (d : Dict)
+    (hv : ∀ v ∈ vals, isOpt v = false) :
+    generateWith isOpt conv (vals ++ rest) d = generateWith isOpt conv rest d := by
+  induction vals with
+  | nil => rfl
+  | cons v vs ih =>
+    have := hv v (by simp)
+    simp only [List.cons_append, generateWith, this, Bool.false_eq_true, if_false]
+    exact ih (fun w hw => hv w (by simp [hw]))
+
+/-- **generate half** on typed groups: one entry per group, stored under the option's name -/
+theorem generateWith_groups (T : List Opt) (gs : List TGroup) (hgs : ∀ g ∈ gs, wfGroup T g = true) (d : Dict) :
+    generateWith isOptionTok convGen (gs.flatMap TGroup.render) d = .ok (foldGroups genValue gs d) := by
+  induction gs generalizing d with
+  | nil => rfl
+  | cons g gs ih =>
+    have hg := hgs g (by simp)
+    have hgs' : ∀ g' ∈ gs, wfGroup T g' = true := fun g' hg' => hgs g' (by simp [hg'])
+    obtain ⟨htok, har, hv⟩ := wfGroup_parts hg
+    obtain ⟨hopt, _, _, _, hstrip, _⟩ := tokOk_parts htok
+    have hrest := render_head T gs hgs' (fun t => !isOptionTok t)
+      (fun g' hg' => by
+        have := (tokOk_parts (wfGroup_parts (hgs' g' hg')).1).1
+        simp [TGroup.tok, this])
+    have hvo : ∀ v ∈ g.vals, isOptionTok v = false := fun v hv' => (valOk_not_option (hv v hv')).1
+    have htw := takeWhile_app (fun t => !isOptionTok t) g.vals _ (fun v hv' => by simp [hvo v hv']) hrest
+    simp only [List.flatMap_cons, TGroup.render, TGroup.tok, List.cons_append, generateWith, hopt, if_true, htw,
+      hstrip, foldGroups, genValue]
+    by_cases he : g.vals.isEmpty = true
+    · simp only [he, if_true]
+      rw [genSkipVals _ _ _ _ _ hvo]
+      exact ih hgs' _
+    · simp only [he, Bool.false_eq_true, if_false, mapM_convGen g.opt g.vals hv, bind, Except.bind]
+      rw [genSkipVals _ _ _ _ _ hvo]
+      exact ih hgs' _
+
+/-! ### comparing the two resulting dictionaries -/
+
+/-- the value stored last for `k` by a list of groups -/
+def lastVal (val : TGroup → JVal) : List TGroup → String → Option JVal
+  | [], _ => none
+  | g :: gs, k => match lastVal val gs k with
+    | some v => some v
+    | none => if g.opt.name = k then some (val g) else none
+
+theorem lookup_foldGroups (val : TGroup → JVal) (gs : List TGroup) (k : String) :
+    ∀ d : Dict, lookup (foldGroups val gs d) k = match lastVal val gs k with
+      | some v => some v
+      | none => lookup d k := by
+  induction gs with
+  | nil => intro d; rfl
+  | cons g gs ih =>
+    intro d
+    simp only [foldGroups, lastVal]
+    rw [ih]
+    cases hl : lastVal val gs k with
+    | some v => rfl
+    | none =>
+      by_cases hk : g.opt.name = k
+      · subst hk; simp [lookup_setKey_self]
+      · simp [hk, lookup_setKey_ne _ _ _ _ (Ne.symm hk)]
+
+theorem keys_nodup_setKey (d : Dict) (k : String) (v : JVal) (h : (keys d).Nodup) : (keys (setKey d k v)).Nodup := by
+  by_cases hk : hasKey d k = true
+  · rw [keys_setKey_of_hasKey _ _ _ hk]; exact h
+  · have hk' : hasKey d k = false := by simpa using hk
+    rw [keys_setKey_of_not_hasKey _ _ _ hk', List.nodup_append]
+    refine ⟨h, by simp, ?_⟩
+    intro a ha b hb
+    simp only [List.mem_singleton] at hb
+    subst hb
+    intro e; subst e
+    exact hk ((hasKey_iff_mem_keys _ _).mpr ha)
+
+theorem keys_nodup_foldGroups (val : TGroup → JVal) (gs : List TGroup) :
+    ∀ d : Dict, (keys d).Nodup → (keys (foldGroups val gs d)).Nodup := by
+  induction gs with
+  | nil => intro d h; exact h
+  | cons g gs ih => intro d h; exact ih _ (keys_nodup_setKey _ _ _ h)
+
+/-- agreement of optional values: both absent, or both present and `≈` -/
+def optApprox : Option JVal → Option JVal → Bool
+  | none, none => true
+  | some x, some y => valApprox x y
+  | _, _ => false
+
+theorem valApprox_refl (v : JVal) : valApprox v v = true := by
+  cases v with
+  | atom a => simp [valApprox, atomApprox_refl]
+  | list l =>
+    simp only [valApprox, decide_true, Bool.true_and]
+    induction l with
+    | nil => rfl
+    | cons a as ih => simp [List.zip_cons_cons, atomApprox_refl, ih]
+
+theorem lastVal_approx (T : List Opt) (gs : List TGroup) (hgs : ∀ g ∈ gs, wfGroup T g = true) (k : String) :
+    optApprox (lastVal genValue gs k) (lastVal argValue gs k) = true := by
+  induction gs with
+  | nil => rfl
+  | cons g gs ih =>
+    have ih' := ih (fun g' hg' => hgs g' (by simp [hg']))
+    simp only [lastVal]
+    cases h1 : lastVal genValue gs k with
+    | some v =>
+      cases h2 : lastVal argValue gs k with
+      | some w => simpa [h1, h2] using ih'
+      | none => simp [h1, h2, optApprox] at ih'
+    | none =>
+      cases h2 : lastVal argValue gs k with
+      | some w => simp [h1, h2, optApprox] at ih'
+      | none =>
+        by_cases hk : g.opt.name = k
+        · simp [hk, optApprox, group_value_approx (hgs g (by simp))]
+        · simp [hk, optApprox]
+
 end Evo.Config
